@@ -26,35 +26,53 @@ def gen_self(seed):
         r = random.Random(seed * 40 + k)
         g = gen_rich.RichGen(r, max_depth=2)
         st = g.inputs(r.randint(0, 2))
-        m = "m" + next(g.names)
-        sg = r.choice(SIGNALS[:5])
-        st.append(("mem", m, sg))
-        # f: a chain of 1..4 arithmetic steps over the cell, constants and held inputs
-        e = ("read", m)
         names = [n for n, kd, _ in g.scope if kd == "sig"]
-        for _ in range(r.randint(1, 4)):
-            op = r.choice(["+", "-", "*", "%", "XOR", "AND", "<<", ">>", "/"])
-            if op in ("<<", ">>"):
-                b = ("int", r.randint(1, 5))
-            elif op in ("%", "/"):
-                b = ("int", r.choice([3, 7, 17, 100, 1000]))
-            elif names and r.random() < 0.35:
-                b = ("ref", r.choice(names))
-            else:
-                b = ("int", r.choice([1, 2, 3, 5, 13, 255, -1]))
-            e = ("bin", op, e, b)
-        st.append(("write", m, e, None))
+        sg = r.choice(SIGNALS[:5])
+        mems = []
+        for mi in range(2 if r.random() < 0.4 else 1):
+            m = "m" + next(g.names)
+            msg = sg if (mi == 0 or r.random() < 0.7) else r.choice(SIGNALS[:5])  # two cells often share one signal type
+            st.append(("mem", m, msg))
+            # f: a chain of 1..4 arithmetic steps over the cell, constants and held inputs
+            e = ("read", m)
+            for _ in range(r.randint(1, 4)):
+                op = r.choice(["+", "-", "*", "%", "XOR", "AND", "<<", ">>", "/"])
+                if op in ("<<", ">>"):
+                    b = ("int", r.randint(1, 5))
+                elif op in ("%", "/"):
+                    b = ("int", r.choice([3, 7, 17, 100, 1000]))
+                elif names and r.random() < 0.35:
+                    b = ("ref", r.choice(names))
+                else:
+                    b = ("int", r.choice([1, 2, 3, 5, 13, 255, -1]))
+                e = ("bin", op, e, b)
+            mems.append((m, msg, e))
+        m = mems[0][0]
+        # readers may be declared before the write (the read is lowered first) or after it
+        readers = []
         for _ in range(r.randint(0, 2)):
-            nm = next(g.names)
-            st.append(("sig", nm, ("bin", r.choice(["+", "*", "-"]), ("read", m), ("int", r.choice([1, 2, 10])))))
-        if r.random() < 0.5 or not any(s_[0] == "sig" for s_ in st):
-            st.append(("sig", next(g.names), ("read", m)))
+            mm = r.choice(mems)[0]
+            readers.append(("sig", next(g.names), ("bin", r.choice(["+", "*", "-"]), ("read", mm), ("int", r.choice([1, 2, 10])))))
+        if len(mems) == 2 and r.random() < 0.7:
+            readers.append(("sig", next(g.names), ("bin", r.choice(["+", "-", "+"]), ("read", mems[0][0]), ("read", mems[1][0]))))
+        if names and r.random() < 0.4:
+            # a reader mixing the cell with a computed value carried on the cell's own signal type
+            mm, msg, _ = r.choice(mems)
+            k = ("proj", ("bin", r.choice(["*", "+"]), ("ref", r.choice(names)), ("int", r.choice([2, 3]))), msg)
+            readers.append(("sig", next(g.names), ("bin", "+", ("read", mm), k)))
+        if r.random() < 0.5 or not readers:
+            readers.append(("sig", next(g.names), ("read", r.choice(mems)[0])))
+        before = [x for x in readers if r.random() < 0.4]
+        st.extend(before)
+        for mm, msg, e in mems:
+            st.append(("write", mm, e, None))
+        st.extend(x for x in readers if x not in before)
         try:
             el = fr.elaborate(st)
         except Exception:  # noqa: BLE001
             continue
-        data = el.mems[m]["data"]
-        if program_safe(el.flat + [("sig", "_", data)]) and s14_free(el.flat + [("sig", "_", data)]):
+        datas = [mm_["data"] for mm_ in el.mems.values()]
+        if all(program_safe(el.flat + [("sig", "_", data)]) and s14_free(el.flat + [("sig", "_", data)]) for data in datas):
             return st, el
     return st, el
 
@@ -71,15 +89,33 @@ def make_items(seed, n):
 
 
 def run(tier, seed, t0):
+    def histories(items):
+        # a certificate no longer checks: look for a concrete history on which the cell misbehaves
+        import history
+        for it in items:
+            if it.status != "violation" or not getattr(it, "mems", None) or it.bpj is None:
+                continue
+            if it.detail.get("failing_input") or it.detail.get("kind", "").startswith("compile"):
+                continue
+            try:
+                h = history.ring_history(it, random.Random(1))
+            except Exception as e:  # noqa: BLE001
+                h = None
+                it.detail["history_search_error"] = repr(e)[:300]
+            if h:
+                it.detail["failing_input"] = h
+
     def cov(items):
         rings = [x for it in items if it.status == "pass" for x in getattr(it, "meta", {}).get("rings", [])]
         gated = sum(getattr(it, "meta", {}).get("cells", 0) for it in items if it.status == "pass")
         return {"rings_certified": len(rings), "ring_lengths": sorted(set(rings)), "kept_gate_pairs_certified": gated}
 
     return c01.run(tier, seed, t0, prop=PROP, n_quick=30, n_thorough=300, make_items=make_items, files=FILES,
-                   props_file="Props/C04.v", extra_cov=cov,
+                   props_file="Props/C04.v", extra_cov=cov, reclassify=histories,
                    rule="random unconditional self-referential writes m.write(f(m.read())) with f a chain of 1-4 arithmetic "
-                        "steps over the cell, constants and held inputs, 0-3 readers, optimisation on and off; per blueprint a "
+                        "steps over the cell, constants and held inputs; one or two cells (often on one signal type); readers "
+                        "before or after the write, over one cell, both cells, or a cell plus a computed value on the cell's own "
+                        "signal type; optimisation on and off; per blueprint a "
                         "kernel-checked certificate of ring shape, per-stage tick equations and composition = f")
 
 
